@@ -183,9 +183,12 @@ impl RotoReport {
 
                     let labels = error.labels.iter().map(|l| {
                         let s = self.spans.get(l.id);
+                        // A label can be in another file than the error, so
+                        // its offsets are relative to the text of that file.
+                        let label_text = &self.files[s.file].contents;
                         Label::new((
                             self.filename(s),
-                            s.character_range(file_text),
+                            s.character_range(label_text),
                         ))
                         .with_message(&l.message)
                         .with_color(match l.level {
